@@ -573,6 +573,71 @@ func (in *Interp) fmtArg(fr *frame, v Value, verb byte, fl fmtFlags) []strPart {
 				}
 			}
 		}
+		if pt, isPtr := x.t.Underlying().(*types.Pointer); isPtr && (verb == 'v' || verb == 'd') {
+			// fmt prints &{...} / &[...] / &map[...] for pointers to composites, else the address
+			if isNilPtr(x.v) {
+				return lit("<nil>")
+			}
+			switch pt.Elem().Underlying().(type) {
+			case *types.Struct, *types.Array, *types.Slice, *types.Map:
+				if in.fmtDepth < 2 {
+					in.fmtDepth++
+					ps := append(lit("&"), in.fmtArg(fr, Iface{t: pt.Elem(), v: in.load(fr, x.v, pt.Elem())}, verb, fl)...)
+					in.fmtDepth--
+					return ps
+				}
+			}
+			a := in.addrOf(fr, x.v)
+			if verb == 'd' {
+				return []strPart{{t: a, verb: 'd'}}
+			}
+			return []strPart{{t: a, verb: 'x', sharp: true}}
+		}
+		if st, isStruct := x.t.Underlying().(*types.Struct); isStruct {
+			if sv, ok := x.v.(*Struct); ok {
+				ps := lit("{")
+				for i := range sv.f {
+					if i > 0 {
+						ps = append(ps, strPart{lit: " "})
+					}
+					ps = append(ps, in.fmtArg(fr, Iface{t: st.Field(i).Type(), v: sv.f[i]}, verb, fl)...)
+				}
+				return append(ps, strPart{lit: "}"})
+			}
+		}
+		if sl, isSlice := x.t.Underlying().(*types.Slice); isSlice {
+			if sv, ok := x.v.(Slice); ok && !sv.img {
+				ps := lit("[")
+				for i := 0; i < sv.len && i < 32; i++ {
+					if i > 0 {
+						ps = append(ps, strPart{lit: " "})
+					}
+					ps = append(ps, in.fmtArg(fr, Iface{t: sl.Elem(), v: in.sliceGet(fr, sv, i)}, verb, fl)...)
+				}
+				return append(ps, strPart{lit: "]"})
+			}
+		}
+		if mt, isMap := x.t.Underlying().(*types.Map); isMap {
+			if mv, ok := x.v.(*MapV); ok {
+				ps := lit("map[")
+				first := true
+				if mv != nil {
+					for i := range mv.keys {
+						if !mv.live[i] {
+							continue
+						}
+						if !first {
+							ps = append(ps, strPart{lit: " "})
+						}
+						first = false
+						ps = append(ps, in.fmtArg(fr, Iface{t: mt.Key(), v: mv.keys[i]}, verb, fl)...)
+						ps = append(ps, strPart{lit: ":"})
+						ps = append(ps, in.fmtArg(fr, Iface{t: mt.Elem(), v: mv.vals[i]}, verb, fl)...)
+					}
+				}
+				return append(ps, strPart{lit: "]"})
+			}
+		}
 		_, signed, isInt := intWidth(x.t)
 		if t, ok := x.v.(*Term); ok && isInt {
 			if t.w == 0 {
